@@ -47,7 +47,8 @@ def k_sort(mode: int, d0: bool, d1: bool, d2: bool, p1: int, p2: int) -> str:
 MAL = ['none', 'non-trashinfo-file', 'empty-info', 'truncated', 'binary', 'non-utf8', 'no-path', 'no-date', 'invalid-date',
        'info-without-payload', 'payload-without-info', 'subdir-in-info', 'info-is-dir', 'no-header', 'crlf', 'dangling-info-link',
        'unreadable-dir-entry', 'no-date-same-path', 'invalid-date-same-path', 'date-with-utc-offset', 'date-with-Z', 'date-with-fraction',
-       'editor-backup-of-a-good-info', 'stale-copy-of-a-good-info', 'temporary-file-with-a-good-stem']
+       'editor-backup-of-a-good-info', 'stale-copy-of-a-good-info', 'temporary-file-with-a-good-stem',
+       'path-with-truncated-utf8-escape', 'path-with-invalid-utf8-escape']
 NMAL = len(MAL)
 ORDER = ['insertion', 'reverse']
 TDS = ['/v/.Trash-1000', '/h/.local/share/Trash', '/v/.Trash/1000']
@@ -106,13 +107,17 @@ def mal_nodes(mk, td):
         return [W.f(i + 'aa.bak', K.info_text('w/old-aa', '2000-01-01T00:00:00'), 0o600, 4000)]
     if k == 'temporary-file-with-a-good-stem':
         return [W.f(i + 'aa.tmp', '', 0o600, 4000), W.f(i + 'zz.trashinfo.swp', 'x', 0o600, 4002)]
+    if k == 'path-with-truncated-utf8-escape':  # a readable ASCII file whose escapes do not decode to UTF-8
+        return [W.f(i + 'm.trashinfo', '[Trash Info]\nPath=w/caf%C3\nDeletionDate=2020-01-01T00:00:00\n', 0o600, 4000), W.f(f + 'm', 'M', 0o644, 4001)]
+    if k == 'path-with-invalid-utf8-escape':
+        return [W.f(i + 'm.trashinfo', '[Trash Info]\nPath=w/m%FF%FE\nDeletionDate=2020-01-01T00:00:00\n', 0o600, 4000), W.f(f + 'm', 'M', 0o644, 4001)]
     if k == 'unreadable-dir-entry':
         return [W.l(i + 'loop.trashinfo', 'loop.trashinfo', 4000)]
     raise ValueError(k)
 
 
 # the malformed neighbour's own identity, to restrict outputs/effects to the well-formed ones
-MAL_MARKS = ('aa.trashinfo~', 'aa.bak', 'aa.tmp', 'zz.trashinfo.swp', 'm.trashinfo', '/files/m', 'w/m', 'README.txt', '/info/sub', 'loop.trashinfo', '/m\n', '/m ', "/m'")
+MAL_MARKS = ('w/caf', 'w/m' + chr(0xfffd), 'aa.trashinfo~', 'aa.bak', 'aa.tmp', 'zz.trashinfo.swp', 'm.trashinfo', '/files/m', 'w/m', 'README.txt', '/info/sub', 'loop.trashinfo', '/m\n', '/m ', "/m'")
 
 
 def good_nodes(td):
@@ -187,7 +192,7 @@ def _case(mk, order, tdi, cmd):
         if c.startswith('restore'):
             # listing indexes shift if the neighbour is (legitimately) offered: compare the set of offered good paths
             l0 = sorted((d, p) for (_, d, p) in K.restore_listing(r0['out']))
-            l1 = sorted((d, p) for (_, d, p) in K.restore_listing(r1['out']) if not p.rstrip('\r').endswith('/m') and d != 'None')
+            l1 = sorted((d, p) for (_, d, p) in K.restore_listing(r1['out']) if not p.rstrip('\r').endswith('/m') and d != 'None' and not any(mk in p for mk in ('w/caf', 'w/m' + chr(0xfffd))))
             if scen.sub(got[2], base + '/zz') is None:
                 return rt.fail('C19:well-formed-entry-not-restored:' + label, 'stderr %r' % (r1['err'][-300:],))
             if l0 != l1:
@@ -215,5 +220,5 @@ def obligations(tier):
            encodes=['trashcli.restore.sort_method.sort_files', 'sorter_for'], bounds='3 entries, symbolic presence of each date, symbolic sharing of original paths, 3 sort modes'),
         CH('W_neighbour_x_order_x_dir_x_cmd', MOD, 'w_main', timeout=900, partitions=list(range(8)), engine='W', regime='selector',
            encodes=K.LIST_FUNCS + K.RESTORE_FUNCS + K.RM_FUNCS + K.EMPTY_FUNCS, stubs=K.STUBS,
-           bounds='25 neighbours x 2 directory orders x 3 trash dirs x 8 command/argument combinations'),
+           bounds='27 neighbours x 2 directory orders x 3 trash dirs x 8 command/argument combinations'),
     ]
